@@ -384,7 +384,13 @@ fn check(tape: &[u8], _ctx: &Ctx) -> Outcome {
         let both = t.chance(90);
         let vary_src = both || t.bool();
         let slay = if vary_src && !inplace {
-            Layout::decode(&mut t, sw, sh, &layout::DYN_SRC_KINDS)
+            // user-defined views with rows longer than their width are allowed by the ImageView contract but are not
+            // among the containers the property lists: an exploration extra, off unless FIRV_EXTRA=padded (DESIGN 8.4)
+            if typed && std::env::var("FIRV_EXTRA").map(|v| v.contains("padded")).unwrap_or(false) && t.chance(50) {
+                Layout::decode(&mut t, sw, sh, &[LKind::PaddedRows])
+            } else {
+                Layout::decode(&mut t, sw, sh, &layout::DYN_SRC_KINDS)
+            }
         } else {
             Layout::plain(sw, sh)
         };
